@@ -99,8 +99,15 @@ func VerifH10a() {
 		}
 	}
 	var err error
-	if nd.Choice("api", 2) == 0 {
+	api := nd.Choice("api", 3)
+	if api == 0 {
 		err = w.d.SetReader(ctx, "a", src)
+	} else if api == 2 {
+		// Set([]byte): the source is a *bytes.Reader, which also implements io.WriterTo
+		if src.failAt >= 0 {
+			nd.Assume(false)
+		}
+		err = w.d.Set(ctx, "a", whole)
 	} else {
 		f, cerr := w.d.Create(ctx, "a")
 		nd.Assert(cerr == nil, "H10a.create")
